@@ -709,6 +709,12 @@ func (u *Unit) adaptArg(st *State, a Val, t types.Type) Val {
 
 // havocModifies interprets the `modifies` clauses of a callee.
 func (u *Unit) havocModifies(env *Env, st *State, con *Contract, name string) {
+	// every location of the frame is evaluated in the state before the call (a field
+	// listed together with the elements it points to must not be re-read after it
+	// has been havocked)
+	pre := *env
+	pre.st = st.clone()
+	env = &pre
 	for _, cl := range con.get("modifies") {
 		ci := u.eng.checked[con]
 		for _, e := range ci.modifies[cl] {
